@@ -2120,7 +2120,7 @@ class Circuit(AbstractCircuit):
             for moment in self._moments
         ]
 
-        return Circuit(op_list)
+        return Circuit(op_list, tags=self.tags)
 
     def earliest_available_moment(
         self, op: cirq.Operation, *, end_moment_index: int | None = None
